@@ -155,7 +155,7 @@ func drawRect(t *tape.Tape, maxSide int) image.Rectangle {
 		// one run in 37: a side beyond the thresholds small images never reach
 		// (8-bit counters, 64 / 128 / 256-row or -pixel blocks, more rows than any
 		// parallelism drawn), the other side small so that the run stays cheap
-		long := [...]int{63, 64, 65, 127, 128, 129, 255, 256, 257, 300, 513, 1025}[t.Intn(12)]
+		long := [...]int{63, 64, 65, 127, 128, 129, 255, 256, 257, 300, 513, 1025, 4097, 8193, 9001}[t.Intn(15)]
 		short := 1 + t.Intn(4)
 		if t.Bool() {
 			w, h = long, short
@@ -197,8 +197,11 @@ func makeImg(t *tape.Tape, kind int, rect image.Rectangle, sub bool) *Img {
 		// palette drawn per run: 1-256 entries of mixed colour types, translucent
 		// and fully transparent non-premultiplied entries included
 		n := 1 + r.Intn(256)
-		if r.Intn(3) == 0 {
+		switch r.Intn(6) {
+		case 0, 1:
 			n = 1 + r.Intn(8)
+		case 2:
+			n = 256 // the full index range: every pixel byte is a valid index
 		}
 		pal := make(color.Palette, n)
 		for i := range pal {
